@@ -30,6 +30,7 @@ inductive Op where
   | semwait (s : Nat) (n : Nat) (to : Option Nat) (interruptible : Bool)
   | cvwait (c : Nat) (m : Nat) (to : Option Nat)
   | notify (c : Nat) (all : Bool)
+  | rwlock (rw : Nat) (write : Bool)
   | other
   deriving DecidableEq, Repr, Inhabited
 
@@ -59,6 +60,13 @@ structure Mutex where
   owner : Option Nat := none
   deriving Repr, Inhabited
 
+structure RW where
+  readers : List Nat := []
+  writer : Option Nat := none
+  cv : Nat := 0          -- id of the internal condition variable's wait queue
+  mtx : Nat := 0         -- id of the internal mutex
+  deriving Repr, Inhabited
+
 structure Sem where
   count : Nat := 0
   budget : Nat := 0               -- what the running resume pass may still hand out
@@ -82,6 +90,8 @@ structure St where
   handoff : Option Nat := none
   /-- registered semaphores with their in-order-resume flag, and registered mutexes -/
   semIds : List (Nat × Bool) := []
+  rw : Nat → RW := fun _ => {}
+  rwIds : List Nat := []
   mutexIds : List Nat := []
 
 inductive Ev where
@@ -112,6 +122,9 @@ inductive Ev where
   | semPass (s cnt : Nat)
   | semInit (s count : Nat) (inorder : Bool)
   | mutexInit (m : Nat)
+  | rwInit (rw cv mtx : Nat)
+  | retRwLock (t rw : Nat) (write : Bool) (r : Int)
+  | callRwUnlock (t rw : Nat)
   | tick (now : Nat)
   | quiescent
   | setShutdown (t : Nat)
@@ -184,16 +197,24 @@ def preSleep (s : St) (t : Nat) (q dl : Option Nat) : Option String :=
   else if !sleepDlOk (s.th t) s.now dl then some "sleep: deadline earlier than requested"
   else parkGuard s (s.th t).op q
 
+/-- what a sleeping thread still owes: a condition-variable wait (directly, or inside
+    `rwlock::lock` on the lock's internal condition variable) has enqueued the thread and will
+    release the mutex as the deferred action of the context switch -/
+def deferredOf (s : St) (t : Nat) (q : Option Nat) : Option (Nat × Nat) :=
+  match (s.th t).op with
+  | .cvwait _ m _ => some (t, m)
+  | .rwlock rw _ => if q = some (s.rw rw).cv then some (t, (s.rw rw).mtx) else s.deferred
+  | _ => s.deferred
+
+def enqueue (s : St) (t : Nat) (q : Option Nat) : St :=
+  match q with
+  | some k => { s with queue := upd s.queue k (s.queue k ++ [t]) }
+  | none => s
+
 def effSleep (s : St) (t : Nat) (q dl : Option Nat) : St :=
-  let x := s.th t
   -- `prepare_usleep` discards an interrupt reason recorded while the thread was runnable
-  let s1 := setTh s t { x with st := .sleep, q := q, dl := dl, err := 0, intrSince := [] }
-  let s2 := match q with
-    | some k => { s1 with queue := upd s1.queue k (s1.queue k ++ [t]) }
-    | none => s1
-  match x.op with
-  | .cvwait _ m _ => { s2 with deferred := some (t, m) }
-  | _ => s2
+  { enqueue (setTh s t { s.th t with st := .sleep, q := q, dl := dl, err := 0, intrSince := [] }) t q with
+    deferred := deferredOf s t q }
 
 -- `resume_threads`: expiry
 def preWakeTimeout (s : St) (t : Nat) : Option String :=
@@ -372,6 +393,34 @@ def preRetCvWait (s : St) (t m : Nat) (r e : Int) : Option String :=
       | _ => true
     if !okErr then some "condition variable: ETIMEDOUT before the deadline" else none
 
+-- reader-writer lock (ghost holder sets driven by the API returns)
+def effRwInit (s : St) (rw cv mtx : Nat) : St :=
+  { s with rw := upd s.rw rw { cv := cv, mtx := mtx }, rwIds := s.rwIds ++ [rw] }
+def preRetRwLock (s : St) (t rw : Nat) (write : Bool) (r : Int) : Option String :=
+  let x := s.rw rw
+  if r ≠ 0 then (if (s.queue x.cv).contains t then some "rwlock: failed lock() left the caller in the wait queue" else none)
+  else if x.writer ≠ none then some "rwlock: lock granted while a writer holds it"
+  else if write ∧ x.readers ≠ [] then some "rwlock: write lock granted while readers hold it"
+  else none
+def effRetRwLock (s : St) (t rw : Nat) (write : Bool) (r : Int) : St :=
+  let x := s.rw rw
+  let s1 := setTh s t { s.th t with op := .none }
+  if r ≠ 0 then s1
+  else if write then { s1 with rw := upd s.rw rw { x with writer := some t } }
+  else { s1 with rw := upd s.rw rw { x with readers := t :: x.readers } }
+def preCallRwUnlock (s : St) (t rw : Nat) : Option String :=
+  let x := s.rw rw
+  if x.writer = some t ∨ x.readers.contains t then none else some "program error: rwlock unlock by a non-holder"
+def effCallRwUnlock (s : St) (t rw : Nat) : St :=
+  let x := s.rw rw
+  if x.writer = some t then { s with rw := upd s.rw rw { x with writer := none } }
+  else { s with rw := upd s.rw rw { x with readers := x.readers.erase t } }
+/-- the value of `rwlock::state` the holder sets correspond to -/
+def rwStateOf (x : RW) : Int := if x.writer.isSome then -1 else (x.readers.length : Int)
+def stuckRw (s : St) (rw : Nat) : Bool :=
+  let x := s.rw rw
+  decide (x.writer = none) && x.readers.isEmpty && !(s.queue x.cv).isEmpty
+
 /-- lost wake-ups visible at a quiescence point: a waiter is parked although the object's state
     already satisfies its wake condition -/
 def stuckMutex (s : St) (m : Nat) : Bool := decide ((s.mutex m).owner = none) && !(s.queue m).isEmpty
@@ -387,7 +436,8 @@ def stuckAtQuiescence (s : St) : List String :=
   (s.semIds.filterMap fun (sm, inorder) =>
     if stuckSem s sm inorder then
       some s!"semaphore {sm}: count {(s.sem sm).count} covers the demand of a parked waiter (head waiter in in-order mode)"
-    else none)
+    else none) ++
+  (s.rwIds.filterMap fun rw => if stuckRw s rw then some s!"rwlock {rw} is free but has parked waiters" else none)
 
 -- time and quiescence
 def preTick (s : St) (n : Nat) : Option String := if n < s.now then some "clock went backwards" else none
@@ -399,6 +449,7 @@ def preQuiescent (s : St) : Option String :=
   else if s.deferred.isSome then some "condition variable: deferred unlock never ran"
   else if s.mutexIds.any (stuckMutex s) then some "lost wake-up: a free mutex has parked waiters at quiescence"
   else if s.semIds.any (fun p => stuckSem s p.1 p.2) then some "lost wake-up: the semaphore count covers a parked waiter's demand at quiescence"
+  else if s.rwIds.any (stuckRw s) then some "lost wake-up: the reader-writer lock is free but has parked waiters at quiescence"
   else none
 
 /-- the guard of an event -/
@@ -424,6 +475,9 @@ def pre (s : St) (e : Ev) : Option String :=
   | .callUnlock t m => preCallUnlock s t m
   | .semInit _ _ _ => none
   | .mutexInit _ => none
+  | .rwInit _ _ _ => none
+  | .retRwLock t rw w r => preRetRwLock s t rw w r
+  | .callRwUnlock t rw => preCallRwUnlock s t rw
   | .semAdd sm n cnt => preSemAdd s sm n cnt
   | .semSub sm n ok _ => preSemSub s sm n ok
   | .semResume sm d t => preSemResume s sm d t
@@ -458,6 +512,9 @@ def eff (s : St) (e : Ev) : St :=
   | .callUnlock _ _ => s
   | .semInit sm c io => effSemInit s sm c io
   | .mutexInit m => effMutexInit s m
+  | .rwInit rw cv mtx => effRwInit s rw cv mtx
+  | .retRwLock t rw w r => effRetRwLock s t rw w r
+  | .callRwUnlock t rw => effCallRwUnlock s t rw
   | .semAdd sm n cnt => effSemAdd s sm n cnt
   | .semSub sm n ok b => effSemSub s sm n ok b
   | .semResume sm d t => effSemResume s sm d t
